@@ -4,7 +4,9 @@ import (
 	"encoding/json"
 	"fmt"
 	"os"
+	"os/exec"
 	"path/filepath"
+	"strconv"
 	"strings"
 
 	"verifharness/fw"
@@ -133,8 +135,53 @@ func raceReports(tmp string) (total int, texel []string) {
 	return
 }
 
+// e2eRace: the race-built real binary on generated multi-table sources, through the cgo driver (C11 only).
+func e2eRace(p *fw.ParentCtx) {
+	vg, bin := os.Getenv("VERIF_VGPKG"), os.Getenv("VERIF_TEXEL_RACE_BIN")
+	if vg == "" || bin == "" {
+		p.Inconclusive = append(p.Inconclusive, "end-to-end part not run: cgo driver or race-built texel binary missing")
+		return
+	}
+	n := 24
+	if p.Tier == "thorough" {
+		n = 300
+	}
+	const W = 8
+	var cmds []*exec.Cmd
+	for w := 0; w < W; w++ {
+		dir := filepath.Join(p.Tmp, fmt.Sprintf("e2e_%d", w))
+		_ = os.MkdirAll(dir, 0o755)
+		cmd := exec.Command("timeout", "-s", "QUIT", "3000", vg, "cli-batch", strconv.FormatInt(p.Seed*1000+int64(w), 10), strconv.Itoa(n/W), dir)
+		cmd.Env = append(os.Environ(), "VERIF_RUN_TMP="+p.Tmp)
+		_ = cmd.Start()
+		cmds = append(cmds, cmd)
+	}
+	runs, multi := int64(0), int64(0)
+	for w, cmd := range cmds {
+		if err := cmd.Wait(); err != nil {
+			p.Inconclusive = append(p.Inconclusive, fmt.Sprintf("end-to-end batch %d failed: %v", w, err))
+			continue
+		}
+		b, err := os.ReadFile(filepath.Join(p.Tmp, fmt.Sprintf("e2e_%d", w), "clibatch.json"))
+		var res fw.Result
+		if err != nil || json.Unmarshal(b, &res) != nil {
+			continue
+		}
+		runs += res.Evaluations
+		multi += res.Hist["ids:2"] + res.Hist["ids:3"]
+	}
+	p.Extra["e2e_race_binary_runs"] = runs
+	p.Extra["e2e_race_binary_runs_with_2+_targets"] = multi
+	if runs == 0 || multi == 0 {
+		p.Inconclusive = append(p.Inconclusive, "end-to-end part observed no multi-target run of the race-built binary")
+	}
+}
+
 func raceExtra(prop string) func(p *fw.ParentCtx) {
 	return func(p *fw.ParentCtx) {
+		if prop == "C11" {
+			e2eRace(p)
+		}
 		raceBuilt := os.Getenv("VERIF_VCHECK_RACE") != "" && (prop == "C11" || p.Tier == "thorough")
 		total, texel := raceReports(p.Tmp)
 		p.Extra["race_detector_enabled"] = raceBuilt
@@ -191,7 +238,7 @@ func init() {
 			p.Technique = "runtime monitor: offline history checker (unique ids, sequential model) over fake targets' event logs"
 		} else {
 			p.FatalIsViolation = true
-			p.Rule = "same pipelines as C10, every run under the Go race detector; observed: return of ProcessFeatures (a total deadlock is reported by the Go runtime and kills the worker = violation), per-target done flag set after a slow final flush, loss/duplication/reordering from the event log, goroutines with a texel frame still parked after return (state-based, not time-based), race reports with a texel frame; non-trivial = >= 2 targets and >= 3 expected deliveries; distinct interleaving signatures are counted"
+			p.Rule = "same pipelines as C10, every run under the Go race detector; observed: return of ProcessFeatures (a total deadlock is reported by the Go runtime and kills the worker = violation), per-target done flag set after a slow final flush, loss/duplication/reordering from the event log, goroutines with a texel frame still parked after return (state-based, not time-based), race reports with a texel frame (from the pipelines and from runs of the race-built real binary on generated multi-table GeoPackages, where main re-assigns target.Table right after return); non-trivial = >= 2 targets and >= 3 expected deliveries; distinct interleaving signatures are counted"
 			p.Required = func(string) []string {
 				return []string{"plan:slow-reader", "plan:slow-f", "plan:one-slow-target", "plan:all-slow-flush", "gomaxprocs:1", "gomaxprocs:16", "stream:empty", "stream:200", "goroutine_checks", "finished_last:target-flush"}
 			}
